@@ -353,10 +353,18 @@ PROPS['C08']['bounds'] += ' M: generate, boxed generate, map (owned and &), zip,
 
 # write permission of mutable views (added after the third seeded round: `as_ptr()` where `as_mut_ptr()` was meant leaves address, length and
 # contents right and makes every write through the view undefined behaviour)
-for pid in ('C02', 'C10', 'C11'):
+for pid in ('C02', 'C09', 'C10', 'C11'):
     PROPS[pid]['mir']['quick'].append(mrun(['mutprov'], nmax=3))
     PROPS[pid]['bounds'] += ' M (mutprov): every `&mut`-to-`&mut` view function of the crate, all N: the returned pointer is derived from the argument through mutable borrows / raw pointers only (a step through a shared borrow is reported; confirmed by Miri with Tree Borrows on a driver that writes through every view).'
     PROPS[pid].setdefault('outside', [])
     PROPS[pid]['outside'] = list(PROPS[pid]['outside']) + ['aliasing-model rules beyond "no write permission through a shared borrow" (Stacked Borrows rejects the unchanged chunks_from_slice_mut; Tree Borrows accepts the unchanged crate)']
 
 PROPS['C14']['bounds'] += ' M also: "and nothing else" - a width / fill / alignment flag adds no characters (Formatter::pad is modelled with a symbolic width).'
+
+# the boxed collector through engine M (std's Vec / Box<[T]> by contract: capacity, published length, shrink on into_boxed_slice, drop frees)
+for pid in ('C04', 'C07', 'C16'):
+    for tier in ('quick', 'thorough'):
+        if tier in PROPS[pid]['mir']:
+            PROPS[pid]['mir'][tier].append(mrun(['try_boxed_from_iter'], nmax=3 if tier == 'quick' else 6))
+            PROPS[pid]['mir'][tier].append({'scenarios': ['try_boxed_from_iter@ind'], 'nmax': 3, 'timeout': 1800, 'soft_inconclusive': True})
+    PROPS[pid]['assumptions'] = list(PROPS[pid].get('assumptions', [])) + ['M stub: Vec::with_capacity / extend / len / set_len / spare_capacity_mut / into_boxed_slice and Box<[T]> into_raw / from_raw behave as documented (extend publishes the length per item; reallocation beyond the reserved capacity is reported, not modelled)']
